@@ -3,7 +3,8 @@
    "compare is a total order" ([ord_ok], Lib/StdSpec.v) is an explicit premise. *)
 From Coq Require Import List ZArith Sorted Permutation.
 From GVgen Require Import MapGen ListGen.
-From GV Require Import Lib.StdSpec Lib.MapProofs Lib.ListProofs.
+From GV Require Import Lib.StdSpec Lib.MapProofs Lib.ListProofs Lib.StdModel Lib.StdModelProofs.
+From GV Require Import Lib.Derive Lib.DeriveProofs Lib.Strings Lib.StringsProofs Lib.Json Lib.JsonProofs.
 Import ListNotations.
 
 (* ---- std.map is a finite map ordered by key ---- *)
@@ -77,3 +78,84 @@ Theorem C19_filter_spec : forall (A : Type) (p : A -> bool) xs,
   ListGen.filter p xs = List.filter p xs.
 Proof. exact filter_spec. Qed.
 Print Assumptions C19_filter_spec.
+
+(* the instance run by the correspondence harness *)
+Theorem C19_Zcompare_ord_ok : ord_ok Z.compare.
+Proof. exact Zcompare_ord_ok. Qed.
+Print Assumptions C19_Zcompare_ord_ok.
+
+Theorem C19_zsort_correct : forall xs,
+  exists r, zsort xs = Done r /\ StronglySorted Z.le r /\ Permutation xs r.
+Proof. exact zsort_correct. Qed.
+Print Assumptions C19_zsort_correct.
+
+(* ---- derived Eq / Show (Lib/Derive.v models vm/src/derive/eq.rs, show.rs) ---- *)
+
+Theorem C19_derive_eq_structural : forall e x g y,
+  wt e g x = true -> wt e g y = true -> (deq e g x y = true <-> x = y).
+Proof. exact derive_eq_structural. Qed.
+Print Assumptions C19_derive_eq_structural.
+
+(* Show is injective when no string of the values contains a quote character ... *)
+Theorem C19_derive_show_injective_partial : forall e g x y,
+  env_ok e = true -> wt e g x = true -> wt e g y = true ->
+  quote_free x = true -> quote_free y = true ->
+  dshow e g x = dshow e g y -> x = y.
+Proof. exact derive_show_injective. Qed.
+Print Assumptions C19_derive_show_injective_partial.
+
+(* ... and not in general: std.string's show does not escape (known finding). *)
+Theorem C19_derive_show_injective_refuted : exists e g x y,
+  env_ok e = true /\ wt e g x = true /\ wt e g y = true /\ dshow e g x = dshow e g y /\ x <> y.
+Proof. exact derive_show_injective_refuted. Qed.
+Print Assumptions C19_derive_show_injective_refuted.
+
+(* ---- strings: byte offsets over Unicode scalar values ---- *)
+
+Theorem C19_str_len_is_utf8_length : forall s, slen s = length (bytes s).
+Proof. exact slen_bytes. Qed.
+Print Assumptions C19_str_len_is_utf8_length.
+
+Theorem C19_str_split_at_sound : forall s i a b,
+  split_at s i = Some (a, b) -> s = a ++ b /\ slen a = i.
+Proof. exact split_at_sound. Qed.
+Print Assumptions C19_str_split_at_sound.
+
+Theorem C19_str_split_at_complete : forall a b, split_at (a ++ b) (slen a) = Some (a, b).
+Proof. exact split_at_complete. Qed.
+Print Assumptions C19_str_split_at_complete.
+
+Theorem C19_str_slice_spec : forall s a b q,
+  slice s a b = Some q -> exists p r, s = p ++ q ++ r /\ slen p = a /\ slen (p ++ q) = b.
+Proof. exact slice_spec. Qed.
+Print Assumptions C19_str_slice_spec.
+
+Theorem C19_str_find_sound : forall s p i,
+  sfind s p = Some i -> exists a b, s = a ++ p ++ b /\ slen a = i.
+Proof. exact find_sound. Qed.
+Print Assumptions C19_str_find_sound.
+
+Theorem C19_str_find_first : forall s p i,
+  sfind s p = Some i -> forall a b, s = a ++ p ++ b -> i <= slen a.
+Proof. exact find_first. Qed.
+Print Assumptions C19_str_find_first.
+
+Theorem C19_str_find_none : forall s p, sfind s p = None -> forall a b, s <> a ++ p ++ b.
+Proof. exact find_none. Qed.
+Print Assumptions C19_str_find_none.
+
+Theorem C19_str_trim_start_spec : forall s,
+  exists w, s = w ++ trim_start s /\ forallb is_ws w = true /\
+            match trim_start s with [] => True | c :: _ => is_ws c = false end.
+Proof. exact trim_start_spec. Qed.
+Print Assumptions C19_str_trim_start_spec.
+
+Theorem C19_str_eqb_spec : forall s t, str_eqb s t = true <-> s = t.
+Proof. exact str_eqb_spec. Qed.
+Print Assumptions C19_str_eqb_spec.
+
+(* ---- JSON: reading back what was written is the identity (float-free values) ---- *)
+
+Theorem C19_json_de_ser : forall v, de (ser v) = Some v.
+Proof. exact json_de_ser. Qed.
+Print Assumptions C19_json_de_ser.
